@@ -278,6 +278,9 @@ type fakeStore struct {
 	validate func(req *storepb.SeriesRequest) error
 	pauses   []int // per delivered frame (cyclic); see pause* constants
 	fault    faultSpec
+	// honourCancel makes a healthy stream behave like a gRPC stream: once its context is cancelled
+	// Recv fails with the context's error (used by the C06 cancellation test only).
+	honourCancel bool
 
 	mu          sync.Mutex
 	calls       []*storepb.SeriesRequest
@@ -371,6 +374,9 @@ func (c *fakeSeriesClient) Recv() (*storepb.SeriesResponse, error) {
 			c.st.mu.Unlock()
 			return nil, errors.New("harness: stalled stream was never cancelled")
 		}
+	}
+	if c.st.honourCancel && c.ctx.Err() != nil {
+		return nil, c.ctx.Err()
 	}
 	if c.i >= len(c.frames) {
 		return nil, io.EOF
